@@ -117,6 +117,9 @@ type fullCfg struct {
 	Coherence bool
 	// Reclaim: at the end delete everything and require that all space is back (C05's oracle)
 	Reclaim bool
+	// CrashImage: at every restart action and at the end, the device as it is at that moment (a crash: what the
+	// journal holds only in memory is gone) is recovered by a second server and compared with the reference
+	CrashImage bool
 }
 
 func runFullDiskCase(t *rapid.T, fc fullCfg) {
@@ -444,6 +447,34 @@ func runFullDiskCase(t *rapid.T, fc fullCfg) {
 			St.Class("fill_stopped_early_inodes_exhausted")
 		}
 	}
+	crashCompare := func() {
+		if !fc.CrashImage || cut {
+			return
+		}
+		if x.Unflushed && x.lastUnstable != nil && x.lastUnstable.Alive {
+			judge(x.Commit(LiveRef(x.lastUnstable), 0, 0))
+			if cut {
+				return
+			}
+		}
+		x.logf("crash image of the device at this moment, recovered by a second server")
+		var cerr error
+		err := x.call(func() {
+			img := x.S.D.Clone()
+			img.SetRecord(false)
+			b := StartSrv(img, unstable, false)
+			defer b.Stop()
+			cerr = CompareTreeOpt(b.API(), x.M, true, true)
+		})
+		if err != nil {
+			judge(err)
+			return
+		}
+		if cerr != nil {
+			judge(&OracleErr{Kind: "crash", Msg: "every request so far was acknowledged as stable (or committed), yet a server recovering from the device as it is now shows: " + cerr.Error()})
+		}
+		St.Class("crash_images_of_nearly_full_disks")
+	}
 	acts["fill"] = func(t *rapid.T) {
 		if cut {
 			t.Skip("case cut short")
@@ -478,6 +509,13 @@ func runFullDiskCase(t *rapid.T, fc fullCfg) {
 			}
 			b := pick(t, []uint64{8, 520, 521, 1031, 1032}, "block")
 			straddle := rapid.IntRange(0, 2).Draw(t, "straddle") == 0
+			// aimed: a stable two-block WRITE across the edge with exactly as many blocks free as the new index
+			// block(s) need - the data block under them cannot be had, the WRITE commits short
+			aimed := rapid.IntRange(0, 3).Draw(t, "aimed") < map[bool]int{true: 2, false: 1}[fc.CrashImage]
+			if aimed {
+				b = pick(t, []uint64{8, 8, 520}, "edge")
+				straddle = true
+			}
 			if straddle {
 				// the request starts in a block that exists, one before the edge, and runs across it
 				b--
@@ -488,20 +526,45 @@ func runFullDiskCase(t *rapid.T, fc fullCfg) {
 					return
 				}
 			}
-			fillTo(t, uint64(rapid.IntRange(1, 3).Draw(t, "freeblocks")))
+			free := uint64(rapid.IntRange(1, 3).Draw(t, "freeblocks"))
+			if aimed {
+				free = 1
+				if b == 519 && rapid.Bool().Draw(t, "two") {
+					free = 2
+				}
+			}
+			fillTo(t, free)
 			if cut {
 				return
 			}
 			St.Class("requests_at_an_index_block_edge_with_1_to_3_blocks_free")
-			if rapid.Bool().Draw(t, "read") {
+			if !aimed && rapid.Bool().Draw(t, "read") {
 				wrap("READHOLE", func(t *rapid.T) error {
 					return x.Read(LiveRef(f), b*BlockSize, uint32(pick(t, []int{1, 4096, 3 * 4096}, "cnt")))
 				})(t)
 			} else {
 				wrap("WRITE", func(t *rapid.T) error {
 					cnt := uint32(pick(t, []int{4096, 8192, 3 * 4096}, "cnt"))
+					if aimed {
+						return x.Write(LiveRef(f), b*BlockSize, patternData(g.nextTag(), 2*BlockSize), 2*BlockSize, nt.FILE_SYNC)
+					}
 					return x.Write(LiveRef(f), b*BlockSize, patternData(g.nextTag(), uint64(cnt)), cnt, pick(t, g.Cfg.Stable, "stable"))
 				})(t)
+				if fc.CrashImage && !cut && f.Alive {
+					// room again, a stable write further into the range under the same index block, and the device as it is then
+					for name, n := range x.M.Root.Children {
+						if strings.HasPrefix(name, "fill") && !n.IsDir() {
+							judge(x.Remove(root, name))
+							break
+						}
+					}
+					if !cut {
+						wrap("WRITE", func(t *rapid.T) error {
+							return x.Write(LiveRef(f), (b+2)*BlockSize+100, patternData(g.nextTag(), 5000), 5000, nt.FILE_SYNC)
+						})(t)
+						crashCompare()
+					}
+				}
 			}
 		}
 	}
@@ -509,6 +572,7 @@ func runFullDiskCase(t *rapid.T, fc fullCfg) {
 		if cut {
 			t.Skip("case cut short")
 		}
+		crashCompare()
 		judge(x.Restart())
 	}
 	nfsck := 0
@@ -535,6 +599,7 @@ func runFullDiskCase(t *rapid.T, fc fullCfg) {
 	if !cut {
 		// the reference, which ignored every failed request, still matches - also after a restart
 		judge(x.CompareAll())
+		crashCompare()
 		judge(x.Restart())
 		judge(x.CompareAll())
 		nfsck++
@@ -644,5 +709,16 @@ func TestC11Full(t *testing.T) {
 				k := errKind(err)
 				return k == "panic" || k == "hang"
 			}})
+	})
+}
+
+// C01 on nearly-full disks: requests that run out of space half-way (short writes at index-block edges, creations
+// without room) are where an acknowledged change can stay in the caches only.  At every restart action and at the
+// end, the device as it is at that moment is recovered by a second server (a crash: what the journal holds only in
+// memory is gone) and must show everything acknowledged so far.
+func TestC01Full(t *testing.T) {
+	rapid.Check(t, func(t *rapid.T) {
+		runFullDiskCase(t, fullCfg{Prop: "C01", Fsck: FsckOpts{}, CrashImage: true, ReadHoles: true,
+			Relevant: func(err error) bool { return errKind(err) == "crash" }})
 	})
 }
